@@ -157,7 +157,7 @@ def judge_path(path: Path, qs, pos):
 
     # "it is the collar at depth zero"
     if not close(at[0.0], path.collar, path.tol(0.0)):
-        fail("collar-at-depth-zero", path.shape(), got=at[0.0], collar=path.collar)
+        fail("collar-at-depth-zero", "desurvey-of-zero", got=at[0.0], collar=path.collar, shape=path.shape())
 
     # "varies continuously with depth": float neighbours of 0 and of every station
     for s in sorted(set(path.a)):
@@ -165,7 +165,7 @@ def judge_path(path: Path, qs, pos):
             if nb in at and not close(at[nb], at[s], path.tol(s)):
                 side = "below" if nb < s else "above"
                 where = "collar" if s == 0.0 else ("final-station" if s == path.last else "station")
-                fail("continuous-at-station", f"{where}:{side}:{path.shape()}", station=s, at_station=at[s], neighbour=at[nb])
+                fail("continuous-at-station", f"{where}:{side}", station=s, at_station=at[s], neighbour=at[nb], shape=path.shape())
 
     # "moves within each survey leg along the mean of the leg's two station directions"
     for i in range(path.n):
@@ -180,12 +180,12 @@ def judge_path(path: Path, qs, pos):
             want = scale(q - lo, path.m[i])
             got = sub(at[q], at[lo])
             if not close(got, want, path.tol(q)):
-                fail(clause, f"{kind}:dirs-{'same' if same else 'differ'}:{path.shape()}", leg=[path.a[i], path.a[i + 1]],
-                     depth=q, moved=got, expected=want)
+                fail(clause, f"{kind}:dirs-{'same' if same else 'differ'}", leg=[path.a[i], path.a[i + 1]],
+                     depth=q, moved=got, expected=want, shape=path.shape())
             # "(hence by exactly the depth difference where the two coincide)"
             if same and kind != "top" and abs(norm(got) - (q - lo)) > path.tol(q):
-                fail("moves-by-depth-difference-where-directions-coincide", f"{kind}:{path.shape()}", depth=q,
-                     moved=norm(got), expected=q - lo)
+                fail("moves-by-depth-difference-where-directions-coincide", kind, depth=q,
+                     moved=norm(got), expected=q - lo, shape=path.shape())
 
     # "continues the last direction beyond the final survey"
     base = at[path.last]
@@ -202,5 +202,5 @@ def judge_path(path: Path, qs, pos):
     if not out:
         for q in qs:
             if q <= path.last and not close(at[q], path.inside(q), path.tol(q)):
-                fail("lies-on-surveyed-path", path.shape(), depth=q, got=at[q], expected=path.inside(q))
+                fail("lies-on-surveyed-path", "sum-of-increments", depth=q, got=at[q], expected=path.inside(q), shape=path.shape())
     return out
